@@ -82,7 +82,7 @@ var zzC17Sizes = []int{1, 2, 4, 8, 16, 32, 64, 128, 256, 512, 1024, 2048, 4096, 
 // (assertions avoid division by the non-power-of-two segment size: with s = i / (8*bs) the block must lie in
 // [s*segSize+bs, (s+1)*segSize), which is "inside segment s and outside its header")
 func zzC17Index() {
-	bs := zzC17Sizes[vChoose("bsIdx", vParam("NBS"))]
+	bs := zzC17Sizes[vParam("BSFROM")+vChoose("bsIdx", vParam("NBS")-vParam("BSFROM"))]
 	segs := vInt("segments")
 	vAssume(segs >= 1)
 	vAssume(segs <= 65536)
